@@ -64,7 +64,19 @@ pub enum COp {
     /// the level's own price (amends like UpdateQuantity). kind: 0 UpdatePrice, 1 UpdatePriceAndQuantity, 2 Replace
     Upd { kind: u8, id: OrderId, price: u64, qty: u64, side: pricelevel::Side, away: bool },
     Read(String),
+    /// `PriceLevel::snapshot()` is one call with four shared-memory steps (three loads, one map iteration); it is run
+    /// as four program entries - part 0 makes the call, parts 1-3 hand out the other three figures it returned - so
+    /// that the model's four one-step reads line up with it step for step
+    Snap(u8),
     Next,
+}
+
+/// one program entry of the line protocol, possibly several entries of the worker's program
+pub fn parse_cops(s: &str) -> Option<Vec<COp>> {
+    if s == "read snap" {
+        return Some(vec![COp::Snap(0), COp::Snap(1), COp::Snap(2), COp::Snap(3)]);
+    }
+    parse_cop(s).map(|c| vec![c])
 }
 
 pub fn parse_cop(s: &str) -> Option<COp> {
@@ -130,7 +142,26 @@ type Results = Arc<Mutex<Vec<Vec<(String, Option<pricelevel::MatchResult>)>>>>;
 /// one worker: registers, runs its program call by call (every call under catch_unwind), reports Finished
 fn worker(w: usize, prog: Vec<COp>, lvl: &PriceLevel, generator: &UuidGenerator, sched: &Sched, results: &Results) {
     set_worker(Some(w));
+    let mut snap: Option<pricelevel::PriceLevelSnapshot> = None;
     for op in prog {
+        if let COp::Snap(part) = &op {
+            if *part == 0 {
+                snap = std::panic::catch_unwind(std::panic::AssertUnwindSafe(|| lvl.snapshot())).ok();
+            }
+            let r = match (&snap, part) {
+                (None, _) => "PANIC".to_string(),
+                (Some(s), 0) => s.visible_quantity.to_string(),
+                (Some(s), 1) => s.hidden_quantity.to_string(),
+                (Some(s), 2) => s.order_count.to_string(),
+                (Some(s), _) => {
+                    let mut v: Vec<Order> = s.orders.iter().map(|a| **a).collect();
+                    canon_sort(&mut v);
+                    show_list(&v, show_order)
+                }
+            };
+            results.lock().unwrap()[w].push((r, None));
+            continue;
+        }
         let r = std::panic::catch_unwind(std::panic::AssertUnwindSafe(|| -> (String, Option<pricelevel::MatchResult>) {
             match &op {
                 COp::Add(o) => {
@@ -173,6 +204,7 @@ fn worker(w: usize, prog: Vec<COp>, lvl: &PriceLevel, generator: &UuidGenerator,
                     None,
                 ),
                 COp::Next => (format!("{}", generator.next()), None),
+                COp::Snap(_) => unreachable!(),
             }
         }));
         let r = r.unwrap_or_else(|_| ("PANIC".to_string(), None));
